@@ -486,7 +486,8 @@ def check_path(ex, F, unit, sim, kind, r, res, known_classes):
             needs_full_ack = 'LAST-ACK was released'
         elif info['arr'] == 'Ok' and (pre['state'], post['state']) in (('FinWait1', 'FinWait2'), ('FinWait1', 'TimeWait'), ('Closing', 'TimeWait')):
             needs_full_ack = f'{pre["state"]} -> {post["state"]}'
-        elif info['arr'] == 'Ok' and pre['state'] == 'SynReceived' and post['state'] in ('Established', 'CloseWait'):
+        elif info['arr'] == 'Ok' and pre['state'] == 'SynReceived' and post['state'] == 'Established':
+            # (SYN-RECEIVED -> CLOSE-WAIT on a FIN is an RFC 9293 edge of its own - eighth step - and does not require our SYN to be acknowledged)
             needs_full_ack = f'{pre["state"]} -> {post["state"]}'
         if needs_full_ack:
             res.obligations += 1
